@@ -8,10 +8,10 @@ BUDGET = {"quick": 3000, "thorough": 200000}
 RULE = ("strings over {letters, { } \\ \" ' space tab CR LF non-ASCII} (no backslash immediately before '{{'), quoted by "
         "'{{' -> '\\{{'; used alone (render(quote s) must equal s for any data), between pairs of tags of every kind "
         "(value tags, comments), and as the body of a {{{{raw}}}} block; thorough adds every string of length ≤ 5 over a "
-        "9-symbol alphabet; oracle = the string itself; non-trivial = contains a brace, backslash or whitespace; distinct by string")
+        "9-symbol alphabet; text around comments and block tags (where only the standalone-line rule may remove whitespace next to the tag: every "
+        "other character must come out, in order); oracle = the string itself; non-trivial = contains a brace, backslash or whitespace; distinct by string")
 DEFINITE_FLOOR = 0.9
-ASSUMPTIONS = ["raw-block bodies that begin with whitespace are excluded from the random stream (known finding F1) and run as a listed witness",
-               "whitespace-only text next to a tag that C11's standalone rule names is placed only where that rule cannot fire (value tags)"]
+ASSUMPTIONS = ["whitespace-only text next to a tag that C11's standalone rule names is placed only where that rule cannot fire (value tags)"]
 ALPHA = list("abXY{}{}\\\"' \t\r\n") + ["é", "→", "😀", "{{", "}}", "{{{", "\\\\"]
 SMALL = ["a", "{", "}", "\\", " ", "\n", "\"", "{{", "é"]
 
@@ -54,7 +54,7 @@ def generate(rng, n, tier="quick"):
             s = texts.pop()
         else:
             s = rand_text(r, r.range(0, 14))
-        mode = r.weighted([("alone", 5), ("between", 4), ("raw", 3), ("comment", 1)])
+        mode = r.weighted([("alone", 5), ("between", 4), ("raw", 3), ("comment", 1), ("around", 4)])
         data = {"v": "V", "w": ""}
         if mode == "alone":
             if s.endswith("\\"):
@@ -71,6 +71,40 @@ def generate(rng, n, tier="quick"):
             val = {"{{v}}": "V", "{{{v}}}": "V", "{{w}}": "", "{{&v}}": "V"}
             tpl = t1 + quote(s) + t2
             exp = val[t1] + s + val[t2]
+        elif mode == "around":
+            # text around tags that the standalone-line rule and nothing else may touch: whatever that rule removes is
+            # whitespace next to the tag – every other character must come out, in order (see `fits`)
+            def piece(n):
+                t = rand_text(r, n)
+                while "{{" in t:
+                    t = t.replace("{{", "{ {")
+                if t.endswith("\\") or t.endswith("{"):
+                    t += "x"
+                return t
+            L, M, R = piece(r.range(0, 8)), piece(r.range(0, 8)), piece(r.range(0, 8))
+            # make the standalone-line rule fire often: line ends (LF, CRLF, a lone CR) and indentation next to the tags
+            if r.chance(0.6):
+                L = r.pick(["", L]) + r.pick(["", "\n", "\r\n", "\n  ", "x\n\t", "\r", "\n\n"])
+            if r.chance(0.6):
+                M = r.pick(["\r", "\r\n", "\n", " \r", "\t\n", "\r\r\n", "  \n"]) + M + r.pick(["", "\n", "\r\n  ", "\n\t", "\r"])
+            if r.chance(0.6):
+                R = r.pick(["\r", "\r\n", "\n", " \r", "\t\n", "\r\r\n", "  \n"]) + R
+            form = r.pick(["comment", "lcomment", "if", "else", "each"])
+            if form == "comment":
+                tpl, pieces = L + "{{! c }}" + R, [(L, False, True), (R, True, False)]
+            elif form == "lcomment":
+                tpl, pieces = L + "{{!-- c --}}" + R, [(L, False, True), (R, True, False)]
+            elif form == "if":
+                tpl, pieces = L + "{{#if v}}" + M + "{{/if}}" + R, [(L, False, True), (M, True, True), (R, True, False)]
+            elif form == "else":
+                tpl, pieces = L + "{{#if w}}x{{else}}" + M + "{{/if}}" + R, [(L, False, True), (M, True, True), (R, True, False)]
+            else:
+                tpl, pieces = L + "{{#each one}}" + M + "{{/each}}" + R, [(L, False, True), (M, True, True), (R, True, False)]
+            data = {"v": "V", "w": "", "one": [1]}
+            case = session({"escape": "html"}, [], {"api": "render_template", "src": tpl}, data)
+            case["id"] = "%s-%06d" % (ID, i)
+            cases.append((case, {"mode": mode, "pieces": pieces, "s": L + M + R, "expect": None}))
+            continue
         elif mode == "comment":
             # a comment in the middle of a line of text writes nothing (text on both sides, so the line is not standalone)
             if s.endswith("\\"):
@@ -87,8 +121,6 @@ def generate(rng, n, tier="quick"):
             body = s
             while "{{{{" in body:
                 body = body.replace("{{{{", "{{{ {")
-            while body[:1] in (" ", "\t", "\r", "\n"):
-                body = "x" + body[1:]
             # an escape in a raw block drops its backslash like anywhere else; keep bodies free of '\{{'
             body = body.replace("\\", "/")
             if body.endswith("{"):
@@ -105,8 +137,33 @@ def generate(rng, n, tier="quick"):
     return cases
 
 
+def fits(out, pieces):
+    """out = the pieces in order, each possibly short of a run of whitespace at the sides named (the side next to a tag)"""
+    WS = " \t\r\n"
+    def variants(text, tl, tr):
+        a = len(text) - len(text.lstrip(WS)) if tl else 0
+        res = set()
+        for i in range(a + 1):
+            rest = text[i:]
+            b = len(rest) - len(rest.rstrip(WS)) if tr else 0
+            for j in range(b + 1):
+                res.add(rest[:len(rest) - j])
+        return res
+    cur = {""}
+    for text, tl, tr in pieces:
+        cur = {c + v for c in cur for v in variants(text, tl, tr) if out.startswith(c + v)}
+        if not cur:
+            return False
+    return out in cur
+
+
 def oracle(case, meta, impl):
     l = last(impl)
+    if meta["mode"] == "around":
+        if l.get("r") != "ok":
+            return ["text around a tag: render failed: %s" % l.get("reason", l.get("r"))]
+        return [] if fits(l["out"], meta["pieces"]) else [
+            "characters other than whitespace next to a tag were removed or changed: pieces %r rendered %r" % (meta["pieces"], l["out"])]
     if l.get("r") == "ok" and l.get("out") == meta["expect"]:
         return []
     return ["text not reproduced verbatim: expected %r got %r" % (meta["expect"], l.get("out", l.get("reason", l.get("r"))))]
